@@ -261,6 +261,9 @@ def _step_body(maxsize, idle, leased_n, dropped_mask, block, preload, relmode, r
             exc = e
         if peer.fired:
             mark("fault fired")
+        if isinstance(peer.raised, Interrupt) and exc is not peer.raised:
+            return _fail("an interrupt raised inside the library (step %s) never reached the caller: urlopen ended with %r / %r"
+                         % (STEPS[P.step], resp, exc))
         if resp is SENTINEL:
             mark("re-entry")
             if pool.reentry_inv is not None:
@@ -451,6 +454,7 @@ class PPeer(N.BaseHandler):
             x = st["queue"].pop(0)
             if isinstance(x, BaseException):
                 st["eof"] = True
+                self.thrown = x
                 raise x
             if x == b"":
                 st["eof"] = True
@@ -526,6 +530,8 @@ def _proxied(topo, step, kind, maxsize, block, preload, disp, rkind):
             exc = e
         if peer.fired:
             mark("fault fired")
+        if isinstance(getattr(peer, "thrown", None), Interrupt) and exc is not peer.thrown:
+            return _fail("an interrupt raised inside the library never reached the caller: ended with %r / %r" % (resp, exc))
         if exc is not None:
             if isinstance(exc, Interrupt):
                 if exc is not peer.raised:
@@ -644,6 +650,13 @@ def JOBS(tier):
             for rks in kinds_data:
                 job(s, -1, d, rks, [0, 1, 4, 5] if late else [0], rkinds=(2,) if late else (0, 2),
                     relmodes=(0, 2) if late else (0, 1, 2))
+    # (B4) faults while urlopen DRAINS the body of a response it is about to follow (302) or retry (503): errors are absorbed by
+    #      the drain, interrupts are not; either way the invariant is re-established
+    for s in (6, 7):
+        for rk in (2, 3):
+            for f in (F["timeout"], F["reset"], F["interrupt"]):
+                job(s, f, -1, [rk], [0], rkinds=(2,), relmodes=(0, 2))
+            job(s, -1, 0, [rk], [0], rkinds=(2,), relmodes=(0, 2))
     # (A) queue mechanics: all pre-states (idle/leased/dropped, maxsize<=2|3) x block x preload x release
     for (step, f, d, rk, disps) in [
         (0, -1, -1, 0, [0]), (0, -1, -1, 0, [2]), (0, -1, -1, 1, [0, 5]), (0, -1, -1, 2, [0]), (0, -1, -1, 3, [0]),
@@ -653,7 +666,7 @@ def JOBS(tier):
         job(step, f, d, [rk], disps, full=True, rkinds=(2,) if rk in (2, 3) or step else (1,),
             relmodes=(0,) if quick else (0, 1, 2))
     for topo in range(4):
-        jobs.append({"func": "c01_proxied", "timeout": t, "path_timeout": 60, "samples": 1, "part": {"topo": topo}})
+        jobs.append({"func": "c01_proxied", "timeout": max(t, 300), "path_timeout": 60, "samples": 1, "part": {"topo": topo}})
     return jobs
 
 
